@@ -15,12 +15,15 @@
     limit; [clean_file f] no malformed line under any heading, i.e. the file parses without error
     ([clean_file_no_errors]); [headings_dated toks f] every heading is a date under the layout;
     [file_is w p data] the path holds a regular file with these bytes, read without an injected
-    fault; [op_db op <> op_log op] the book is another file.  Each is shown necessary below. *)
+    fault; [op_db op <> op_log op] the book is another file.  Each is shown necessary below.
+    [Settings.config_path w i <> op_log op] (WP28: a regular file at the configuration path is now
+    read as text by [Config.parse_config]): the log is not also the configuration file. *)
 From HP Require Import Base.Bytes Base.Utf8 Base.Num Model.Scanner Model.Parser Model.Syntax Model.Elements
   Model.Dates Model.Writer Model.Reporters Model.Cli.
 From HP Require Import Spec.PeriodSpec Spec.PeriodBytesSpec.
 From HP Require Import Proofs.ParserScan Proofs.ParserCorollaries Proofs.PeriodPick Proofs.PeriodRun.
 From HP Require Import Proofs.PeriodBytesParse Proofs.PeriodBytesRun Proofs.PeriodBytesCli Proofs.PeriodBytesExamples.
+From HP Require Proofs.Settings.
 
 (** *** the pure parser statement *)
 
@@ -130,6 +133,7 @@ Theorem period_is_deletion_run :
     headings_dated (rc_date (op_rc op)) f ->
     file_is w (op_log op) (render f) ->
     op_db op <> op_log op ->
+    Settings.config_path w i <> op_log op ->
     run NM w i
     = run NM (with_file w (op_log op)
                 (render (keep_records (in_period (rc_date (op_rc op)) (op_begin op) (op_end op)) f)))
@@ -144,6 +148,7 @@ Theorem period_is_deletion_or_undated_run :
     wf_file NM f = true -> short_lines f -> clean_file f ->
     file_is w (op_log op) (render f) ->
     op_db op <> op_log op ->
+    Settings.config_path w i <> op_log op ->
     run NM w i
     = run NM (with_file w (op_log op)
                 (render (keep_records (in_period_or_undated (rc_date (op_rc op)) (op_begin op) (op_end op)) f)))
@@ -153,9 +158,9 @@ Print Assumptions period_is_deletion_or_undated_run.
 
 (** the options of the second invocation are those of the first with the period removed *)
 Theorem load_without_period :
-  forall (w : world) (i : invocation) (op : options) (p d data' : bytes),
+  forall (w : world) (i : invocation) (op : options) (p data' : bytes),
     load w i = inr op ->
-    lookup_fs w p = Some (FFile d) ->
+    Settings.config_path w i <> p ->
     load (with_file w p data') (without_period_flags i) = inr (without_period op).
 Proof. exact PeriodBytesCli.load_without_period. Qed.
 Print Assumptions load_without_period.
@@ -172,6 +177,7 @@ Theorem summary_is_deletion_run :
     headings_dated (rc_date (op_rc op)) f ->
     file_is w (op_log op) (render f) ->
     op_db op <> op_log op ->
+    Settings.config_path w i <> op_log op ->
     run NM w i
     = run NM (with_file w (op_log op)
                 (render (keep_records (in_period (rc_date (op_rc op))
